@@ -145,3 +145,23 @@ Definition unode_world_ex (ex : list string) (d : option Z) : decls :=
   fun c => match c with O => Some (unode_decl_ex ex d) | _ => None end.
 Definition unode_decl := unode_decl_ex [].
 Definition unode_world := unode_world_ex [].
+
+(* ---------- the same class with a variable-length tuple link: `link: Tuple['Node', ...] = ()` ---------- *)
+Fixpoint to_val_t (t : tree) : pyval :=
+  match t with
+  | Node v kids => PDict [(PStr "v", PInt v); (PStr "link", PTuple (map to_val_t kids))]
+  end.
+Fixpoint inst_t (t : tree) : pyval :=
+  match t with
+  | Node v kids => PInst 0 [("v", PInt v); ("link", PTuple (map inst_t kids))]
+  end.
+Definition tuple_link : ty := TRule (Some (TPrim TTuple)) [TData 0] true [] None None None.
+Definition tnode_decl_ex (ex : list string) (d : option Z) : cdecl := {|
+  c_fields := [("v", plain_field "v" (TPrim TInt) true None);
+               ("link", plain_field "link" tuple_link false (Some (PTuple [])))];
+  c_alias_map := []; c_ci_names := []; c_options := opts_with_depth d; c_dfs := false;
+  c_exclude_vars := ex; c_dict_based := true |}.
+Definition tnode_world_ex (ex : list string) (d : option Z) : decls :=
+  fun c => match c with O => Some (tnode_decl_ex ex d) | _ => None end.
+Definition tnode_decl := tnode_decl_ex [].
+Definition tnode_world := tnode_world_ex [].
